@@ -13,3 +13,11 @@ func (r *vRunner) extraOp(o vOp) bool {
 	f(r, o)
 	return true
 }
+
+//go:noinline
+func vHelperUtilFile(f func()) { f() }
+
+//go:noinline
+func vLeafUtil(c *Config, name string, standalone bool) (string, string, []VFrame) {
+	return VProbeExported(c, name, standalone)
+}
